@@ -303,7 +303,7 @@ pub fn def() -> PropertyDef {
         rule: "random: method in {coefficient-packing matmul forward / reverse / CKKS (3 objectives, pack_lwe on/off, bias through encode_outputs, transport none / selected terms / full), BOLT cp / cc_cr / cc_dc, conv2d forward / reverse / CKKS} x N=8..32 (thorough 128) x shapes (m,r,n) from 1 up to 2N and (batch, c_in, c_out, H, W, kh, kw) with images up to several times the slot count (so splits along every dimension incl. the height and partial last blocks occur) x boundary-biased values; exhaustive: every (m,r,n) with all dimensions <= 3 at N=8 (thorough <= 6 at N in {8,16,32}) for the five BFV matrix methods. Oracle: u128 reference product / valid cross-correlation modulo t (CKKS: f64 reference within a worst-case bound); decode_outputs(encode_outputs(y)) = y; a shape is accepted iff the constructor returns. Plus the RNS-plaintext wrapper: products, sums, differences with 2..4 plain moduli compared with big-integer arithmetic modulo their product. non-trivial: packing on, or more than one ciphertext per operand, or a dimension that is not a power of two / not a multiple of its block.",
         assumptions: vec!["fixed generous parameter family (t <= 2^17, three 56..59-bit data primes) under which the pipelines' worst-case noise stays below Q/2 with margin (guard computed per case)", "CKKS tolerance: (terms+1) N 10 (E_fresh+2) / scale x 4 (x N^2 with packing)"],
         subs: vec![
-            Sub::prop("random_shapes", 15_000, 200_000, 0.3, app_case, oracle),
+            Sub::prop("random_shapes", 60_000, 400_000, 0.3, app_case, oracle),
             Sub::enumerate("small_shapes_exhaustive", small_shapes, oracle),
             Sub::prop("rns_plain_wrapper", 1_500, 20_000, 0.5, |t| (3u32..=t.pick(5, 7), any::<u8>(), any::<u8>(), any::<u64>(), any::<u64>()).prop_map(|(logn, count, op, seed, entropy)| RnspCase { logn, count, op, seed, entropy }).boxed(), rnsp_oracle),
         ],
